@@ -58,16 +58,38 @@ def roundtrips(spec):
     exprs.update({"poly": f * g + 2 * f**2, "grad": inner(grad(f), grad(g)), "cond": conditional(lt(f, 0.30000000000000004), sin(f), exp(g)),
                   "const": c[0] * f + c[1], "int": IntValue(10) * f, "arg": v * f, "complex": as_ufl(1.5 + 2.5j) * f,
                   "index": f.dx(0) * g.dx(1), "variable": ufl.variable(f * g) ** 2})
+    # zeros carrying shape / free indices (what 0*c[i] and 0*grad(f) simplify to), alone and inside an expression
+    ii, jj = ufl.Index(count=8), ufl.Index(count=3)
+    exprs.update({"zero_free_index": 0 * c[ii], "zero_shape": 0 * grad(f), "zero_two_free": 0 * (c[ii] * c[jj]),
+                  "zero_in_cond": conditional(lt(f, 1), 0 * c[ii], c[ii])})
+    # unrelated objects that no round trip may change (flyweight caches are process-wide)
+    bystanders = {"Zero()": lambda: repr(ufl.classes.Zero()), "as_ufl(0)": lambda: repr(as_ufl(0)), "IntValue(0)": lambda: repr(IntValue(0)),
+                  "Zero((2,))": lambda: repr(ufl.classes.Zero((2,))), "0*f": lambda: repr(0 * f), "f+0": lambda: repr(f + 0),
+                  "cond(0, c[i])": lambda: repr(conditional(lt(f, 1), 0, f))}
+    before_by = {k: fn() for k, fn in bystanders.items()}
+    before_ex = {k: repr(e) for k, e in exprs.items()}
     res = []
     for k, e in exprs.items():
         name = f"roundtrip/{k}"
         try:
             p = pickle.loads(pickle.dumps(e))
+            def now(fn):
+                try:
+                    return fn()
+                except Exception as ex2:  # noqa: BLE001  (constructing it worked before the round trip)
+                    return f"raises {type(ex2).__name__}"
+
+            changed = [b for b, fn in bystanders.items() if now(fn) != before_by[b]] + \
+                      [k2 for k2, e2 in exprs.items() if repr(e2) != before_ex[k2]]
+            if changed:
+                res.append(outcome(name, "violated", detail=f"the pickle round trip changed unrelated objects: {changed[:4]}",
+                                   sample=repr(e)[:200], witness={"changed": changed[:6]}))
+                break
             if not (p == e) or repr(p) != repr(e) or hash(p) != hash(e):
                 res.append(outcome(name, "violated", detail="pickle round trip is not an equal object", sample=repr(e)[:200],
                                    witness={"repr": repr(e)[:300]}))
                 continue
-            if k != "variable" and k != "index":
+            if k != "variable" and k != "index" and not k.startswith("zero_"):
                 q = eval(repr(e), ns)
                 if not (q == e) or repr(q) != repr(e):
                     res.append(outcome(name, "violated", detail=f"eval(repr(.)) is not an equal object: {repr(q)[:120]}",
